@@ -146,6 +146,17 @@ impl Context {
         self
     }
 
+    /// Can this pattern join the current set of macros ? The regex crate refuses a pattern or a
+    /// set of patterns beyond its size limit (very long names, hundreds of parameters)
+    pub(crate) fn accepts_pattern(&self, pattern: &str) -> bool {
+        if Regex::new(pattern).is_err() {
+            return false;
+        }
+        let mut set: Vec<&str> = self.defs_ex_ex.last().unwrap().iter().map(|s| s.as_str()).collect();
+        set.push(pattern);
+        RegexSet::new(set).is_ok()
+    }
+
     /// Gets a macro that may or may not be defined from a context.
     pub fn get_macro<N: Into<String>>(&self, name: N) -> Option<&String> {
         self.defs.get(&name.into())
@@ -568,7 +579,16 @@ pub fn process<I: BufRead, O: Write>(
                         line,
                         msg,
                     })?;
+                    let too_complex = || Error::Syntax {
+                        filename: filename.clone(),
+                        included_in: included_in.clone(),
+                        line,
+                        msg: format!("Macro definition too complex: {:.40}", mcro),
+                    };
                     if caps.get(2).is_none() {
+                        if !context.accepts_pattern(&format!("\\b{}\\b", mcro)) {
+                            return Err(too_complex());
+                        }
                         context.define(mcro, value);
                     } else {
                         let mut rex = format!("\\b{}\\(", mcro);
@@ -576,7 +596,7 @@ pub fn process<I: BufRead, O: Write>(
                         if !params.is_empty() {
                             for v in caps.get(2).unwrap().as_str().split(',') {
                                 let vx = v.trim_start();
-                                let re = Regex::new(&format!("\\b{}\\b", vx)).unwrap();
+                                let re = Regex::new(&format!("\\b{}\\b", vx)).map_err(|_| too_complex())?;
                                 value = re.replace_all(&value, format!("$${}", vx)).to_string();
                                 //rex += &format!("(?P<{}>[^,]*?),", vx);
                                 rex += &format!(
@@ -594,8 +614,11 @@ pub fn process<I: BufRead, O: Write>(
                                 filename: filename.clone(),
                                 included_in: included_in.clone(),
                                 line,
-                                msg: format!("Invalid parameter list for macro {}", mcro),
+                                msg: format!("Invalid parameter list for macro {:.40}", mcro),
                             });
+                        }
+                        if !context.accepts_pattern(&rex) {
+                            return Err(too_complex());
                         }
                         value = value.replace("##", ""); // Double hash
                         debug!("regex:{}", &rex);
